@@ -10,7 +10,8 @@ Request of `*.encode`:
 Reply `{"val": {"strings": [[text, {z,x,q}, [re, im]], …], "raw": n}}` (`raw` = number of strings before
 pruning) or `{"raised": "<ExceptionClass>"}`.
 `*.ladder` `{"L": n}`: for every site `[s₀, s₁ᶜ, s₁ᵃ]`, and the encoded single ladder operators
-(creation, annihilation) exactly as `*.encode` would return them.
+(creation, annihilation) exactly as `*.encode` would return them, and the non-zero entries `[r, c, value]` of the reference
+ladder matrices (`refcreate`, `refannihil`; flat indices, site 0 most significant).
 -/
 open Lean
 namespace Qib.Encode
@@ -66,6 +67,9 @@ def singleLadder (L i : Nat) (create : Bool) : FieldOp GQ :=
   ⟨[⟨true, L⟩], [⟨[⟨0, if create then .create else .annihil⟩], [L],
     (List.range L).map fun k => ([k], if k = i then (1 : GQ) else 0)⟩]⟩
 
+def refJson (l : List (Nat × Nat × Int)) : Json :=
+  .arr (l.map fun (r, c, v) => Json.arr #[jNat r, jNat c, jInt v]).toArray
+
 def opLadder (enc : Enc) (j : Json) : Except String Json := do
   let L ← fNat j "L"
   let sites := (List.range L).map fun i =>
@@ -73,7 +77,8 @@ def opLadder (enc : Enc) (j : Json) : Except String Json := do
       | .error e => raisedE e
       | .ok op => opJson op
     Json.mkObj [("s0", psJson (s0 enc L i)), ("s1c", psJson (s1c enc L i)), ("s1a", psJson (s1a enc L i)),
-      ("create", encd true), ("annihil", encd false)]
+      ("create", encd true), ("annihil", encd false),
+      ("refcreate", refJson (ladderSparse L i true)), ("refannihil", refJson (ladderSparse L i false))]
   return val (.arr sites.toArray)
 
 end Qib.Encode
